@@ -122,6 +122,8 @@ def parse_star_fusion(args:argparse.Namespace) -> None:
 
     logger.info('STAR-Fusion output %s loaded.', fusion)
 
+    tally.log()
+
     if not variants:
         logger.warning('No variant record is saved.')
         return
@@ -136,5 +138,3 @@ def parse_star_fusion(args:argparse.Namespace) -> None:
     seqvar.io.write(variants, output_path, metadata)
 
     logger.info('Variant info written to disk.')
-
-    tally.log()
